@@ -29,6 +29,8 @@ def new_sim(rng):
     sim.integrator = rng.choice(INTEGRATORS)
     sim.dt = 0.01 * (1 + rng.random())
     sim.t = rng.choice([0.0, 1.5, -2.25, 100.0])      # the first snapshot need not be at t = 0
+    if sim.integrator in ("ias15", "bs", "leapfrog", "whfast") and rng.random() < 0.3:
+        sim.add_variation()                             # variational configurations already in the first snapshot
     note(["new_sim", sim.integrator, sim.N])
     return sim
 
@@ -54,7 +56,13 @@ def _do_op(sim, rng, log):
     with warnings.catch_warnings():
         warnings.simplefilter("ignore")
         try:
-            if r < 0.30 and sim.N > 0:   # stepping an empty simulation is outside this property
+            if sim.N_var > 0 and sim.N > 0 and rng.random() < 0.15:
+                # a variational coordinate beyond 1e100 is rescaled at the end of the next step: the configuration's accumulator changes
+                idx = sim.var_config[0].index
+                sim.particles[idx].x = 3e100 * (1.0 + rng.random())
+                sim.steps(1)
+                log.append(["var_rescale", sim.var_config[0]._lrescale])
+            elif r < 0.30 and sim.N > 0:   # stepping an empty simulation is outside this property
                 k = rng.randrange(1, 6)
                 note(["about-to-step", k, sim.integrator, sim.N])
                 sim.steps(k)
